@@ -11,6 +11,7 @@ package ice
 import (
 	"context"
 	"encoding/json"
+	"errors"
 	"fmt"
 	"math/rand/v2"
 	"net"
@@ -469,6 +470,79 @@ func vfLinzHistory(e *vfEnv, r *vfResult, idx int) {
 	r.distinct(fmt.Sprintf("linz/clients=%d/per=%d", nClients, perClient))
 }
 
+// vfC10ConcurrentStart: StartDial / StartAccept called concurrently on a fresh agent.  Each call observes a state
+// produced by whole preceding operations: exactly one of them starts the agent, every other one is refused with
+// ErrMultipleStart, and role and remote credentials are those of the one that succeeded.  The task loop is kept busy
+// while the calls are issued, so that they all overlap.
+func vfC10ConcurrentStart(e *vfEnv, r *vfResult, idx int) {
+	rng := e.rng(idx, "concurrentstart")
+	a, err := NewAgent(&AgentConfig{Net: vfSimpleNet(newVfSwitch(), "A", "10.0.0.1"), NetworkTypes: []NetworkType{NetworkTypeUDP4}, CandidateTypes: []CandidateType{CandidateTypeHost},
+		MulticastDNSMode: MulticastDNSModeDisabled, LoggerFactory: vfQuietLogger()})
+	if err != nil {
+		r.inconclusive(1)
+
+		return
+	}
+	defer a.Close() //nolint:errcheck
+	gate := make(chan struct{})
+	busy := make(chan struct{})
+	go func() {
+		_ = a.loop.Run(a.loop, func(context.Context) { close(busy); <-gate })
+	}()
+	<-busy
+	n := 2 + rng.IntN(3)
+	type res struct {
+		dial bool
+		uf   string
+		err  error
+	}
+	results := make(chan res, n)
+	for i := 0; i < n; i++ {
+		dial := rng.IntN(2) == 0
+		uf := fmt.Sprintf("peer%d", i)
+		go func() {
+			var err error
+			if dial {
+				_, err = a.StartDial(uf, "passwordpasswordpasswordpassword")
+			} else {
+				_, err = a.StartAccept(uf, "passwordpasswordpasswordpassword")
+			}
+			results <- res{dial, uf, err}
+		}()
+	}
+	time.Sleep(time.Duration(200+rng.IntN(800)) * time.Microsecond)
+	close(gate)
+	okCalls := []res{}
+	for i := 0; i < n; i++ {
+		select {
+		case x := <-results:
+			if x.err == nil {
+				okCalls = append(okCalls, x)
+			} else if !errors.Is(x.err, ErrMultipleStart) {
+				r.note("concurrent start: unexpected error %v", x.err)
+			}
+		case <-time.After(20 * time.Second):
+			r.violation("concurrent-start-stuck", fmt.Sprintf("history %d: a StartDial/StartAccept call did not return", idx), map[string]any{"idx": idx, "stacks": vfStacks()})
+
+			return
+		}
+	}
+	r.eval(1)
+	wit := map[string]any{"idx": idx, "calls": n, "succeeded": len(okCalls)}
+	if len(okCalls) != 1 {
+		r.violation("concurrent-start-not-exclusive", fmt.Sprintf("history %d: %d of %d concurrent StartDial/StartAccept calls succeeded (exactly one must; the others report ErrMultipleStart)", idx, len(okCalls), n), wit)
+
+		return
+	}
+	ru, _, _ := a.GetRemoteUserCredentials()
+	ctl := a.isControlling.Load()
+	if ru != okCalls[0].uf || ctl != okCalls[0].dial {
+		r.violation("concurrent-start-mixed-state", fmt.Sprintf("history %d: the call that succeeded was %s(%s) but the agent has remote ufrag %q and controlling=%v", idx, map[bool]string{true: "StartDial", false: "StartAccept"}[okCalls[0].dial], okCalls[0].uf, ru, ctl), wit)
+	}
+	r.count("c10_concurrent_start_calls", int64(n))
+	r.distinct(fmt.Sprintf("concurrentstart/n%d", n))
+}
+
 func TestVerifC10API(t *testing.T) {
 	vfRun(t, "C10", func(e *vfEnv, r *vfResult) {
 		n := e.n(24, 600)
@@ -478,6 +552,9 @@ func TestVerifC10API(t *testing.T) {
 		m := e.n(160, 6000)
 		for i := 0; i < m; i++ {
 			vfLinzHistory(e, r, i)
+		}
+		for i := 0; i < e.n(200, 8000); i++ {
+			vfC10ConcurrentStart(e, r, i)
 		}
 	})
 }
